@@ -351,3 +351,33 @@ func (f *zzFlushSpy) Flush() error {
 	}
 	return err
 }
+
+// ZZWalAsyncRoll (C09): batched appends across segment roll-overs — the follower's pattern: `batch` AppendAsync
+// calls, then one Sync, repeated — with segments that hold 2 entries, so that a roll-over happens while entries
+// are appended but not yet synced. Every append at last+1 is accepted, nothing is lost or duplicated at a roll-over,
+// the log reads back contiguous in both directions, also after a reopen.
+func ZZWalAsyncRoll(n, batch int) {
+	zzDisk = map[int64]*zzSegData{}
+	zzSegCap = 2
+	dir := vTempDir()
+	cp := &zzCommit{off: 1 << 40}
+	clock := &zzWClock{}
+	w := zzOpenWal(dir, cp, clock)
+	var ref []zzRef
+	for i := int64(0); i < int64(n); i++ {
+		vAssert("append-at-last+1-accepted", w.AppendAsync(zzEntry(i, uint64(1000+i))) == nil)
+		ref = append(ref, zzRef{i, byte(i + 1), uint64(1000 + i)})
+		if (int(i)+1)%batch == 0 {
+			vAssert("sync-ok", w.Sync(context.Background()) == nil)
+			vAssert("synced-up-to-the-last-append", w.LastOffset() == i)
+		}
+	}
+	vAssert("final-sync-ok", w.Sync(context.Background()) == nil)
+	zzCheckWal(w, ref, 0, "after-batched-appends")
+	vAssert("close-ok", w.Close() == nil)
+	w = zzOpenWal(dir, cp, clock)
+	zzCheckWal(w, ref, 0, "after-reopen")
+	vAssert("next-append-accepted", w.Append(zzEntry(int64(n), uint64(1000+n))) == nil)
+	_ = w.Close()
+	vReach("end")
+}
